@@ -13,6 +13,7 @@ import (
 	"sort"
 	"strings"
 	"sync"
+	"syscall"
 	"time"
 )
 
@@ -30,6 +31,7 @@ type DriverOpts struct {
 }
 
 type workerRun struct {
+	checkpoint *Summary
 	shard    int
 	lastUnit int
 	sum      *Summary
@@ -63,6 +65,12 @@ func spawnWorker(self string, o DriverOpts, args []string, wr *workerRun) {
 		switch m.Type {
 		case "progress", "begin":
 			wr.lastUnit = m.Unit
+			if m.Sum != nil {
+				if m.Sum.Distinct == nil && wr.checkpoint != nil {
+					m.Sum.Distinct = wr.checkpoint.Distinct
+				}
+				wr.checkpoint = m.Sum
+			}
 			if m.Type == "begin" {
 				wr.hashes = append(wr.hashes[:0], fmt.Sprintf("%d %d", m.Unit, m.Sub))
 			}
@@ -177,42 +185,50 @@ func RunDriver(o DriverOpts) int {
 	if o.Hashes != "" {
 		base = append(base, "--hashes")
 	}
-	runs := make([]*workerRun, n)
-	var wg sync.WaitGroup
-	for i := 0; i < n; i++ {
-		runs[i] = &workerRun{shard: i}
-		wg.Add(1)
-		go func(wr *workerRun) {
-			defer wg.Done()
-			spawnWorker(self, o, append(append([]string{}, base...), "--shard", fmt.Sprint(wr.shard), "--of", fmt.Sprint(n)), wr)
-		}(runs[i])
-	}
-	wg.Wait()
-
+	// one goroutine per shard: run a worker; if it dies or hangs, find the exact plan in a fresh
+	// careful process, classify it, and carry on with the rest of the shard in a new worker
+	var mu sync.Mutex
+	var runs []*workerRun
 	infra := 0
 	var extraViol []Msg
 	excepted := Counters{}
-	for _, wr := range runs {
-		if wr.sum != nil && wr.err == nil {
-			continue
-		}
-		// a worker died, hung or was killed: find the exact plan in a fresh, careful process
-		fmt.Printf("goatsim: worker %d ended abnormally (%v); re-running its units from %d one at a time\n", wr.shard, wr.err, wr.lastUnit)
-		res := triage(self, o, e, base, wr, n, work, replayDir)
-		switch res.kind {
-		case "violation":
-			extraViol = append(extraViol, res.msg)
-		case "excepted":
-			excepted.Inc(res.why)
-			fmt.Printf("goatsim: excepted resource exhaustion (%s) at unit %d\n", res.why, res.msg.Unit)
-		default:
-			infra++
-			fmt.Printf("goatsim: INFRASTRUCTURE: %s\n%s\n", res.why, wr.stderr)
-		}
-		if res.rest != nil {
-			wr.sum = res.rest
-		}
+	var wg sync.WaitGroup
+	for i := 0; i < n; i++ {
+		wg.Add(1)
+		go func(shard int) {
+			defer wg.Done()
+			from := 0
+			for attempt := 0; attempt < 40; attempt++ {
+				wr := &workerRun{shard: shard, lastUnit: from}
+				spawnWorker(self, o, append(append([]string{}, base...), "--shard", fmt.Sprint(shard), "--of", fmt.Sprint(n), "--from", fmt.Sprint(from)), wr)
+				mu.Lock()
+				runs = append(runs, wr)
+				mu.Unlock()
+				if wr.sum != nil && wr.err == nil {
+					return
+				}
+				wr.sum = wr.checkpoint // what it had measured up to its last progress mark
+				res := triage(self, o, e, base, wr, n, work, replayDir)
+				mu.Lock()
+				switch res.kind {
+				case "violation":
+					extraViol = append(extraViol, res.msg)
+				case "excepted":
+					excepted.Inc(res.why)
+				default:
+					infra++
+					fmt.Printf("goatsim: INFRASTRUCTURE: worker %d: %s\n%s\n", shard, res.why, wr.stderr)
+				}
+				mu.Unlock()
+				fmt.Printf("goatsim: worker %d stopped at unit %d (%s: %s); the shard continues at unit %d\n", shard, res.msg.Unit, res.kind, res.why, res.next)
+				if res.kind == "infra" || res.next <= from {
+					return
+				}
+				from = res.next
+			}
+		}(i)
 	}
+	wg.Wait()
 
 	// merge
 	total := &Summary{Counters: Counters{}, Sigs: map[string]int{}}
@@ -351,7 +367,7 @@ type triageResult struct {
 	kind string // violation | excepted | infra
 	why  string
 	msg  Msg
-	rest *Summary
+	next int // first unit after the offending one (the shard continues there)
 }
 
 var oomRe = regexp.MustCompile(`out of memory|cannot allocate memory|makeslice: len out of range`)
@@ -370,7 +386,7 @@ func triage(self string, o DriverOpts, e Engine, base []string, wr *workerRun, n
 		return triageHang(self, o, careful.hang)
 	}
 	if careful.err == nil && careful.sum != nil {
-		return triageResult{kind: "infra", why: "worker death did not reproduce in a careful re-run (flaky infrastructure?)", rest: careful.sum}
+		return triageResult{kind: "infra", why: "worker death did not reproduce in a careful re-run (flaky infrastructure?)"}
 	}
 	unit := careful.lastUnit
 	planBytes, _ := os.ReadFile(filepath.Join(work, "careful-plan.json"))
@@ -386,7 +402,15 @@ func triage(self string, o DriverOpts, e Engine, base []string, wr *workerRun, n
 	}
 	msg := Msg{Type: "violation", Unit: unit}
 	if oomRe.MatchString(alone.stderr) {
-		return triageResult{kind: "excepted", why: "fatal_out_of_memory", msg: msg}
+		// is it the script's own allocation request (excepted), or do the stages that must
+		// always terminate blow up by themselves?
+		hp := filepath.Join(work, fmt.Sprintf("hang-%s-%d-0.json", o.Prop, unit))
+		os.WriteFile(hp, planBytes, 0o644)
+		if st := triageHang(self, o, &Msg{Unit: unit, Replay: hp}); st.kind != "excepted" {
+			st.next = unit + 1
+			return st
+		}
+		return triageResult{kind: "excepted", why: "fatal_out_of_memory_in_run_stage", msg: msg, next: unit + 1}
 	}
 	if o.Prop != "C03" {
 		return triageResult{kind: "infra", why: fmt.Sprintf("the process died executing unit %d (a Go fatal error is property C03's subject, not %s's):\n%s", unit, o.Prop, alone.stderr)}
@@ -403,7 +427,7 @@ func triage(self string, o DriverOpts, e Engine, base []string, wr *workerRun, n
 		return triageResult{kind: "infra", why: err.Error()}
 	}
 	msg.Replay, msg.Sig, msg.Detail = path, rp.Violation.Sig(), "C03/fatal: "+first
-	return triageResult{kind: "violation", msg: msg}
+	return triageResult{kind: "violation", msg: msg, next: unit + 1}
 }
 
 // triageHang asks the engine-independent stage probe whether the stages that
@@ -417,25 +441,31 @@ func triageHang(self string, o DriverOpts, hang *Msg) triageResult {
 		return triageResult{kind: "infra", why: err.Error()}
 	}
 	go func() { done <- cmd.Wait() }()
+	why := ""
 	select {
 	case err := <-done:
 		if err == nil {
-			return triageResult{kind: "excepted", why: "slow_script_over_watchdog", msg: Msg{Unit: hang.Unit}}
+			return triageResult{kind: "excepted", why: "slow_script_over_watchdog", msg: Msg{Unit: hang.Unit}, next: hang.Unit + 1}
 		}
-		return triageResult{kind: "infra", why: "stage probe failed: " + outb.String()}
+		if !oomRe.MatchString(outb.String()) {
+			return triageResult{kind: "infra", why: "stage probe failed: " + outb.String()}
+		}
+		why = "tokenize/parse/load/compile of a source <= 16 KiB ran out of memory (6 GiB) before any script code ran"
 	case <-time.After(hangLimit * 2):
 		cmd.Process.Kill()
-		if o.Prop != "C03" {
-			return triageResult{kind: "infra", why: "a non-run stage did not terminate (property C03's subject): " + hang.Replay}
-		}
-		keep := filepath.Join(o.VerifDir, "replays", filepath.Base(hang.Replay))
-		os.MkdirAll(filepath.Dir(keep), 0o755)
-		b, _ := os.ReadFile(hang.Replay)
-		rp := &Replay{Property: "C03", Engine: "hostsafe", Seed: o.Seed, Tier: o.Tier, Unit: hang.Unit, Sub: hang.Sub,
-			Violation: Violation{Property: "C03", Rule: "C03/returns", KeyKind: "stage-hang", Detail: "tokenize/parse/load/compile did not terminate within 40 s: " + outb.String()}, Plan: b}
-		path, _ := WriteReplay(filepath.Join(o.VerifDir, "replays"), rp)
-		return triageResult{kind: "violation", msg: Msg{Type: "violation", Unit: hang.Unit, Sub: hang.Sub, Replay: path, Sig: rp.Violation.Sig(), Detail: rp.Violation.Detail}}
+		why = "tokenize/parse/load/compile of a source <= 16 KiB did not finish within 40 s: " + firstLines(outb.String(), 3)
 	}
+	if o.Prop != "C03" {
+		return triageResult{kind: "infra", why: "a non-run stage did not complete (property C03's subject): " + hang.Replay}
+	}
+	b, _ := os.ReadFile(hang.Replay)
+	rp := &Replay{Property: "C03", Engine: "hostsafe", Seed: o.Seed, Tier: o.Tier, Unit: hang.Unit, Sub: hang.Sub,
+		Violation: Violation{Property: "C03", Rule: "C03/returns", KeyKind: "stage-does-not-complete", Detail: why}, Plan: b}
+	path, err := WriteReplay(filepath.Join(o.VerifDir, "replays"), rp)
+	if err != nil {
+		return triageResult{kind: "infra", why: err.Error()}
+	}
+	return triageResult{kind: "violation", msg: Msg{Type: "violation", Unit: hang.Unit, Sub: hang.Sub, Replay: path, Sig: rp.Violation.Sig(), Detail: "C03/returns: " + why}, next: hang.Unit + 1}
 }
 
 func writeEvidence(o DriverOpts, e Engine, t *Summary, distinct, reported int, known map[string]bool, wall float64, workers int) error {
@@ -562,6 +592,14 @@ func RunReplay(path string) int {
 	return 0
 }
 
+func firstLines(s string, n int) string {
+	ls := strings.Split(s, "\n")
+	if len(ls) > n {
+		ls = ls[:n]
+	}
+	return strings.Join(ls, " | ")
+}
+
 // StageProber is implemented by engines whose plans contain source text handed
 // to Eval/Load: Stages runs only the stages that must always terminate.
 type StageProber interface {
@@ -570,6 +608,8 @@ type StageProber interface {
 
 // RunStages is the watchdog's stage probe (separate process, killed on timeout).
 func RunStages(path string) int {
+	lim := syscall.Rlimit{Cur: 6 << 30, Max: 6 << 30}
+	_ = syscall.Setrlimit(syscall.RLIMIT_AS, &lim)
 	base := filepath.Base(path)
 	parts := strings.Split(base, "-")
 	if len(parts) < 2 {
